@@ -46,7 +46,7 @@ def _build(name):
         r = RH.RaggedHistory()
         r.oracles = ('meta',)
         r.weights = dict(append=2, iterappend=0, truncate=2, mode=3, reopen=10, append_bad=0,
-                         truncate_bad=0, getbad=0, iter=0, meta=80)
+                         truncate_bad=0, getbad=0, iter=0, meta=80, recreate=5)
         r.create_empty_p = 0.05
         from . import meta as MM
         a.enum_alphabet = MM.C13_ALPHABET
